@@ -1,25 +1,26 @@
 (* Property C09 - the template lexer partitions the source exactly, with right positions and lines.
-   Only statements here; proofs live in Lexer/Proofs.v.  Model: Lexer/Model.v
-   (django_lex = stock DebugLexer, detailed = _detailed_tag_parser, parse_template; every function takes
-   the flag [d] = tag_re compiled with re.DOTALL, i.e. COMPONENTS.multiline_tags).
-   Auxiliary predicates (Lexer/Proofs.v): [chain a l b] = the spans of l are contiguous from a to b;
-   [opener]/[closer] = the two delimiter characters of a token type; [slice s a b] = s[a:b]. *)
+   Only statements here; every proof is `exact` of the lemma of the same name in Lexer/Proofs.v.
+   Model: Lexer/Model.v (django_lex = stock DebugLexer, detailed = _detailed_tag_parser, parse_template; every
+   function takes the flag [d] = tag_re compiled with re.DOTALL, i.e. COMPONENTS.multiline_tags;
+   spec_lex = one-pass reference lexer, qrun / qstate_at = "inside a quoted string").
+   Auxiliary predicates: [chain a l b] = the spans of l are contiguous from a to b; [opener]/[closer] = the two
+   delimiter characters of a token type; [slice s a b] = s[a:b] (Lexer/Wf.v); [close_at body j] = body[j:j+2] is
+   percent-brace; [first_unquoted_close body j] = j is the first index with a percent-brace read outside quoted
+   strings (Lexer/Scan.v); [tok_body s t] = s[tstart t + 2:], [close_index t] = tend t - tstart t - 4
+   (Lexer/OnePass.v); [closes_as_stock(b)] = the quote-aware scan ends the tag where stock ends it
+   (Lexer/Restart.v).  All theorems hold for every source (no length bound) and both values of d. *)
 From Coq Require Import String.
-From DJC Require Import Lib.Base Lexer.Model Lexer.Proofs Lexer.Restart.
+From DJC Require Import Lib.Base Lexer.Model Lexer.Proofs.
 
-(* Token spans are non-empty, contiguous, start at 0, end at len(source), and concatenate to the source. *)
+(* 1. Token spans are non-empty, contiguous, start at 0, end at len(source), and concatenate to the source. *)
 Theorem spans_partition : forall d s toks, parse_template d s = POk toks ->
   chain 0 toks (length s) /\
   Forall (fun t => tstart t < tend t <= length s) toks /\
   concat (map (fun t => slice s (tstart t) (tend t)) toks) = s.
-Proof.
-  intros d s toks H. destruct (parse_template_wf d s toks H) as [F C]. split; [exact C|]. split.
-  - eapply Forall_impl; [|exact F]. intros t [A [B _]]. split; assumption.
-  - rewrite (chain_concat s toks 0 (length s) F C). apply slice_all.
-Qed.
+Proof. exact Proofs.spans_partition. Qed.
 Print Assumptions spans_partition.
 
-(* TEXT: contents = span.  VAR / BLOCK / COMMENT: the span starts and ends with the type's delimiters and the
+(* 2. TEXT: contents = span.  VAR / BLOCK / COMMENT: the span starts and ends with the type's delimiters and the
    contents are the span without the two delimiters, stripped (Python str.strip). *)
 Theorem contents_eq_span : forall d s toks t, parse_template d s = POk toks -> In t toks ->
   match ttype t with
@@ -29,20 +30,14 @@ Theorem contents_eq_span : forall d s toks t, parse_template d s = POk toks -> I
           slice s (tend t - 2) (tend t) = closer ty /\
           tcontents t = strip (slice s (tstart t + 2) (tend t - 2))
   end.
-Proof.
-  intros d s toks t H I. destruct (parse_template_wf d s toks H) as [F _].
-  rewrite Forall_forall in F. destruct (F t I) as [_ [_ [_ W]]]. exact W.
-Qed.
+Proof. exact Proofs.contents_eq_span. Qed.
 Print Assumptions contents_eq_span.
 
-(* lineno = 1 + number of newlines before the token's start (after the fix 2466753 this holds for every token,
-   also after several quoted tags and after multi-line quoted tags). *)
+(* 3. lineno = 1 + number of newlines before the token's start - for every token, also after several quoted tags
+   and after multi-line quoted tags. *)
 Theorem lineno_correct : forall d s toks t, parse_template d s = POk toks -> In t toks ->
   tline t = 1 + count_nl (firstn (tstart t) s).
-Proof.
-  intros d s toks t H I. destruct (parse_template_wf d s toks H) as [F _].
-  rewrite Forall_forall in F. destruct (F t I) as [_ [_ [W _]]]. exact W.
-Qed.
+Proof. exact Proofs.lineno_correct. Qed.
 Print Assumptions lineno_correct.
 
 (* The stock lexer has the same three properties, for every preset verbatim state (what the restart relies on). *)
@@ -50,99 +45,133 @@ Theorem stock_lexer_partition : forall d v s,
   chain 0 (django_lex_v d v s) (length s) /\
   forall t, In t (django_lex_v d v s) ->
     tstart t < tend t <= length s /\ tline t = 1 + count_nl (firstn (tstart t) s) /\
-    (ttype t = TText -> tcontents t = slice s (tstart t) (tend t)).
-Proof.
-  intros d v s. destruct (django_lex_v_wf d v s) as [F C]. split; [exact C|].
-  intros t I. rewrite Forall_forall in F. destruct (F t I) as [A [B [L W]]].
-  split; [split; assumption|]. split; [exact L|]. intros Ty. rewrite Ty in W. exact W.
-Qed.
+    match ttype t with
+    | TText => tcontents t = slice s (tstart t) (tend t)
+    | ty => slice s (tstart t) (tstart t + 2) = opener ty /\ slice s (tend t - 2) (tend t) = closer ty /\
+            tcontents t = strip (slice s (tstart t + 2) (tend t - 2))
+    end.
+Proof. exact Proofs.stock_lexer_partition. Qed.
 Print Assumptions stock_lexer_partition.
 
-(* REUSED BY C10a.  No block tag of the stock token stream contains a quote character => identical streams. *)
+(* 4a. _detailed_tag_parser(text, ln, st0), text starting with the opener: it returns a token iff the text after
+   the opener has a percent-brace outside quoted strings; the token ends at the FIRST such (contents = the text up
+   to it, stripped); otherwise it raises, "unterminated q string" if the text ends inside a q-quoted string (or
+   right after a backslash in it), "unterminated tag" if it ends outside.  [qrun] does not look at percent signs:
+   since fbbed58 a percent sign that is not followed by a closing brace is ordinary content. *)
+Theorem detailed_closes_at_first_unquoted_end : forall text ln st0,
+  (forall fixed, detailed text ln st0 = inr fixed <->
+     exists j, first_unquoted_close (skipn 2 text) j /\
+       fixed = mkTok TBlock (strip (firstn j (skipn 2 text))) st0 (st0 + (j + 4)) ln) /\
+  (forall e, detailed text ln st0 = inl e <->
+     (forall j, ~ (close_at (skipn 2 text) j /\ qstate_at (skipn 2 text) j = QOut)) /\
+     e = err_of_qstate (qrun QOut (skipn 2 text))).
+Proof. exact Proofs.detailed_closes_at_first_unquoted_end. Qed.
+Print Assumptions detailed_closes_at_first_unquoted_end.
+
+(* 4b. Every BLOCK token of the patched stream (quoted or not) ends at the first percent-brace, counted from its
+   opener, that lies outside quoted strings. *)
+Theorem closes_at_first_unquoted_end : forall d s toks t, parse_template d s = POk toks -> In t toks ->
+  ttype t = TBlock ->
+  (close_at (tok_body s t) (close_index t) /\ qstate_at (tok_body s t) (close_index t) = QOut) /\
+  forall i, i < close_index t -> ~ (close_at (tok_body s t) i /\ qstate_at (tok_body s t) i = QOut).
+Proof. exact Proofs.closes_at_first_unquoted_end. Qed.
+Print Assumptions closes_at_first_unquoted_end.
+
+(* 5a. REUSED BY C10a.  No block tag of the stock token stream contains a quote character => identical streams
+   (types, contents, positions, line numbers). *)
 Theorem eq_stock_when_no_quote : forall d s,
   (forall t, In t (django_lex d s) -> ttype t = TBlock -> existsb is_quote (tcontents t) = false) ->
   parse_template d s = POk (django_lex d s).
-Proof.
-  intros d s H. apply eq_stock_no_broken. apply Forall_forall. intros t I. unfold is_broken.
-  destruct (ttype t) eqn:Ty; try reflexivity. apply H; assumption.
-Qed.
+Proof. exact Proofs.eq_stock_when_no_quote. Qed.
 Print Assumptions eq_stock_when_no_quote.
 
-(* REUSED BY C10a (the balanced-quote variant).  [closes_as_stockb s t] (decidable, Lexer/Restart.v): the quote-aware
-   scan of _detailed_tag_parser started at t's opener ends exactly at t's end - i.e. the quotes of the tag are
-   balanced, no percent-brace lies inside them and no lone percent sign derails the scan.  If that holds for every
-   quoted block tag of the stock stream, the patched lexer returns the stock stream, token for token (types,
-   contents, positions, line numbers, verbatim handling included).  The proof goes through the restart lemma
-   [Restart.restart_rest]: re-lexing the remainder after a token, with the verbatim state parse_template carries
-   over, yields exactly the rest of the stock stream. *)
+(* 5b. In particular a source without any quote character. *)
+Theorem eq_stock_when_no_quote_char : forall d s,
+  existsb is_quote s = false -> parse_template d s = POk (django_lex d s).
+Proof. exact Proofs.eq_stock_when_no_quote_char. Qed.
+Print Assumptions eq_stock_when_no_quote_char.
+
+(* 5c. REUSED BY C10a.  Every quoted block tag of the stock stream is closed by the quote-aware scan where stock
+   closes it (decidable [closes_as_stockb]) => identical streams, verbatim handling included.  Proof through the
+   restart lemma [Restart.restart_rest]: re-lexing the remainder after a token, with the verbatim state
+   parse_template carries over, yields exactly the rest of the stock stream. *)
 Theorem eq_stock_when_quotes_closed : forall d s,
   (forall t, In t (django_lex d s) -> is_broken t = true -> closes_as_stockb s t = true) ->
   parse_template d s = POk (django_lex d s).
-Proof.
-  intros d s H. apply eq_stock_closed. intros t I B. apply closes_as_stockb_iff. apply H; assumption.
-Qed.
+Proof. exact Proofs.eq_stock_when_quotes_closed. Qed.
 Print Assumptions eq_stock_when_quotes_closed.
 
-(* "differs only by keeping a quoted close", first half: the patched stream can differ from stock only if some
-   quoted block tag b of the stock stream is closed elsewhere by the detailed scan (or the scan fails); all stock
-   tokens before the first such b satisfy the closing condition.  PARTIAL: the statement does not describe the
-   patched stream at and after b (it is `pre ++ fixed :: ...` with fixed starting where b starts - shown by the
-   loop invariant of Lexer/Restart.pt_go_stock, not stated as a theorem); where the scan closes instead is given
-   by closes_at_first_unquoted_end_partial. *)
-Theorem differs_only_at_reclosed_quoted_tag_partial : forall d s,
-  parse_template d s = POk (django_lex d s) \/
-  exists pre b post, django_lex d s = pre ++ b :: post /\ is_broken b = true /\ closes_as_stockb s b = false /\
-    Forall (fun t => is_broken t = true -> closes_as_stockb s t = true) pre.
-Proof.
-  intros d s. destruct (first_difference d s) as [A|[pre [b [post [E [B [N F]]]]]]]; [left; exact A|].
-  right. exists pre, b, post. split; [exact E|]. split; [exact B|]. split.
-  - destruct (closes_as_stockb s b) eqn:X; [|reflexivity]. apply closes_as_stockb_iff in X. contradiction.
-  - eapply Forall_impl; [|exact F]. intros t Ht Bt. apply closes_as_stockb_iff. apply Ht. exact Bt.
-Qed.
-Print Assumptions differs_only_at_reclosed_quoted_tag_partial.
+(* 5d. REUSED BY C10a.  The same in declarative form: in every quoted block tag of the stock stream, the
+   percent-brace that ends the tag for stock Django is read outside the tag's quoted strings. *)
+Theorem eq_stock_when_stock_close_unquoted : forall d s,
+  (forall t, In t (django_lex d s) -> is_broken t = true -> qstate_at (tok_body s t) (close_index t) = QOut) ->
+  parse_template d s = POk (django_lex d s).
+Proof. exact Proofs.eq_stock_when_stock_close_unquoted. Qed.
+Print Assumptions eq_stock_when_stock_close_unquoted.
 
-(* The while loop terminates: S(len) iterations of fuel are never used up, and more fuel changes nothing. *)
+(* 6a. "Differs only by keeping a quoted percent-brace": for EVERY source (result or TemplateSyntaxError) the
+   restart-based implementation computes the one-pass reference lexer [spec_lex] - stock Django's loop (text runs,
+   variables, comments, the verbatim state machine, positions, line numbers all stock) in which a tag that stock
+   emits as a BLOCK token with a quote character ends at the first percent-brace outside its quoted strings. *)
+Theorem differs_only_by_quoted_close : forall d s, parse_template d s = spec_lex d s.
+Proof. exact Proofs.differs_only_by_quoted_close. Qed.
+Print Assumptions differs_only_by_quoted_close.
+
+(* 6b. The first difference with the stock stream, if any, is at a quoted block tag b whose stock-closing
+   percent-brace is read INSIDE a quoted string of the tag; the tokens before b are stock's; the patched stream
+   continues with a BLOCK token that starts where b starts, on the same line, extends beyond b and ends at the
+   first percent-brace outside quoted strings (or parse_template raises for b or a later tag). *)
+Theorem first_difference_is_quoted_close : forall d s,
+  parse_template d s = POk (django_lex d s) \/
+  exists pre b post, django_lex d s = pre ++ b :: post /\ is_broken b = true /\
+    Forall (fun t => is_broken t = true -> closes_as_stock s t) pre /\
+    qstate_at (tok_body s b) (close_index b) <> QOut /\
+    match parse_template d s with
+    | POk toks => exists fixed post', toks = pre ++ fixed :: post' /\
+        ttype fixed = TBlock /\ tstart fixed = tstart b /\ tline fixed = tline b /\ tend b < tend fixed /\
+        first_unquoted_close (tok_body s b) (close_index fixed)
+    | PErr _ => True
+    | POutOfFuel => False
+    end.
+Proof. exact Proofs.first_difference_is_quoted_close. Qed.
+Print Assumptions first_difference_is_quoted_close.
+
+(* 7a. The while loop terminates: S(len) iterations of fuel are never used up, and more fuel changes nothing. *)
 Theorem terminates : forall d s,
   parse_template d s <> POutOfFuel /\
   forall k, pt_go (S (length s) + k) d s 0 0 None [] = parse_template d s.
-Proof.
-  intros d s. unfold parse_template. apply pt_go_fuel; [lia|reflexivity|lia].
-Qed.
+Proof. exact Proofs.terminates. Qed.
 Print Assumptions terminates.
 
-(* A re-parsed (quoted) tag ends at the first percent-brace OUTSIDE its quoted strings ([spec_run], the
-   S-model [parse_template_spec]).  FULL STATEMENT `forall d s, parse_template d s = parse_template_spec d s`
-   IS REFUTED by the current code: a percent sign outside strings that is not followed by a closing brace
-   makes `take_until_any(QUOTE_CHARS)` swallow everything up to the next quote, including the real end. *)
-Theorem closes_at_first_unquoted_end_refuted : exists d s,
-  parse_template d s <> parse_template_spec d s /\
-  parse_template_spec d s = POk (django_lex d s).
-Proof.
-  exists true, lone_pct_witness. destruct lone_pct_refutes as [A [B _]]. rewrite A, B. split; [discriminate|reflexivity].
-Qed.
-Print Assumptions closes_at_first_unquoted_end_refuted.
-
-(* What is proved: outside that input class ([lone_pct_free]: no scan of a re-parsed tag meets, outside strings,
-   a percent sign followed by something other than a closing brace or a quote - decidable on the source)
-   implementation and specification coincide.  Missing for the full statement: the lone-percent class (open
-   finding c09-lone-percent). *)
-Theorem closes_at_first_unquoted_end_partial : forall d s,
-  lone_pct_free d s = true -> parse_template d s = parse_template_spec d s.
-Proof. intros d s P. unfold parse_template, parse_template_spec. apply pt_go_eq_spec. exact P. Qed.
-Print Assumptions closes_at_first_unquoted_end_partial.
+(* 7b. ... because index_start strictly increases in every iteration that hands a tag to the detailed parser. *)
+Theorem index_start_increases : forall d v s i off good b rest fixed,
+  i <= length s -> off = count_nl (firstn i s) ->
+  map (shift_tok i off) (django_lex_v d v (skipn i s)) = good ++ b :: rest -> is_broken b = true ->
+  detailed (skipn (tstart b) s) (tline b) (tstart b) = inr fixed ->
+  i < tend fixed <= length s.
+Proof. exact Proofs.index_start_increases. Qed.
+Print Assumptions index_start_increases.
 
 (* ---------- non-vacuity ---------- *)
-(* two quoted tags, one of them multi-line and keeping a quoted percent-brace: parse_template succeeds,
-   differs from stock, and the guard lone_pct_free holds *)
+(* two quoted tags, one of them multi-line and keeping a quoted percent-brace: parse_template succeeds, differs
+   from stock, line numbers as expected *)
 Example premises_satisfiable :
   let s := s2n "a
 {% x 'q%}' %}
 {% y
  ""r"" %}{{ v }}"%string in
-  lone_pct_free true s = true /\
   (exists toks, parse_template true s = POk toks /\ length toks = 5 /\ POk toks <> POk (django_lex true s)) /\
   map tline (match parse_template true s with POk l => l | _ => [] end) = [1; 2; 2; 3; 4].
-Proof. vm_compute. split; [reflexivity|]. split; [|reflexivity]. eexists. split; [reflexivity|]. split; [reflexivity|discriminate]. Qed.
+Proof. vm_compute. split; [|reflexivity]. eexists. split; [reflexivity|]. split; [reflexivity|discriminate]. Qed.
+
+(* the witnesses of the defect fixed by fbbed58 (a lone percent sign outside strings in a quoted tag): now stock *)
+Example lone_percent_fixed :
+  parse_template true (s2n "{% a ""c"" %b %}"%string) = POk (django_lex true (s2n "{% a ""c"" %b %}"%string)) /\
+  parse_template true (s2n "{% a ""c"" %b %}x{% d ""e"" %}y"%string)
+    = POk (django_lex true (s2n "{% a ""c"" %b %}x{% d ""e"" %}y"%string)) /\
+  length (django_lex true (s2n "{% a ""c"" %b %}x{% d ""e"" %}y"%string)) = 4 /\
+  parse_template true (s2n "{% a ""c"" %%}"%string) = POk (django_lex true (s2n "{% a ""c"" %%}"%string)).
+Proof. vm_compute. repeat split. Qed.
 
 (* a source without quotes in tags *)
 Example no_quote_premise_satisfiable :
@@ -150,10 +179,25 @@ Example no_quote_premise_satisfiable :
   forall t, In t (django_lex true s) -> ttype t = TBlock -> existsb is_quote (tcontents t) = false.
 Proof. vm_compute. intros t [E|[E|[E|[E|[]]]]]; subst; intros; try reflexivity; discriminate. Qed.
 
-(* quoted tags that all close as stock closes them (incl. a quoted verbatim block): premise of
-   eq_stock_when_quotes_closed holds and there are broken tokens *)
+(* quoted tags that all close as stock closes them (incl. a quoted verbatim block): the premises of 5c and 5d
+   hold and there are quoted tokens *)
 Example quotes_closed_premise_satisfiable :
   let s := s2n "{% verbatim 'x' %}{% if %}{% endverbatim 'x' %}{% a ""b"" k='c' %}"%string in
   forallb (fun t => negb (is_broken t) || closes_as_stockb s t) (django_lex true s) = true /\
+  forallb (fun t => negb (is_broken t) || is_qout (qstate_at (tok_body s t) (close_index t))) (django_lex true s) = true /\
   length (filter is_broken (django_lex true s)) = 3.
-Proof. vm_compute. split; reflexivity. Qed.
+Proof. vm_compute. repeat split. Qed.
+
+(* both outcomes of _detailed_tag_parser occur; a token that skipped a quoted percent-brace *)
+Example detailed_outcomes :
+  detailed (s2n "{% a 'x%}' %}z"%string) 3 10 = inr (mkTok TBlock (s2n "a 'x%}'"%string) 10 23 3) /\
+  detailed (s2n "{% a 'x%}"%string) 1 0 = inl (EUntermString 39%N) /\
+  detailed (s2n "{% a 'x' %"%string) 1 0 = inl EUntermTag.
+Proof. vm_compute. repeat split. Qed.
+
+(* the second disjunct of 6b is inhabited *)
+Example difference_exists :
+  let s := s2n "{% a 'x%}' %}"%string in
+  parse_template true s <> POk (django_lex true s) /\
+  map (fun t => qstate_at (tok_body s t) (close_index t)) (django_lex true s) = [QIn 39%N; QOut].
+Proof. vm_compute. split; [discriminate|reflexivity]. Qed.
